@@ -29,35 +29,38 @@ struct Profile {
 	int maxOps, maxActs;
 	int payPct;      // % of requests carrying a payload
 	int chainPct;    // % of actions chained to the next one
+	int refPct;      // % of cases in which external requests may hand over previousTransition()'s payload by reference
+	int echoPct;     // % of operands / action operands that repeat the previous one (coinciding destinations are where de-duplication logic lives)
 };
 
 //                      upd rea qry chg imm pApp pClr pRem suc fail ent ext sav lod rpl cpy rec log setCtx
+//                      actions: none req cancel succ fail succId failId pApp pClr pRem req+ req& logger
 const Profile kProfiles[] = {
 	{"general",        {20, 8,  4,  12, 10, 8,   2,   3,   5,  3,   3,  3,  4,  5,  4,  2,  2,  2, 2},
-	                   {40, 18, 10, 6, 3, 4, 3, 8, 2, 3, 4}, {8, 1, 1}, 14, 14, 45, 15},
+	                   {40, 18, 10, 6, 3, 4, 3, 8, 2, 3, 4, 4, 1}, {8, 1, 1}, 14, 14, 45, 15, 50, 25},
 	{"guards",         {14, 6,  1,  14, 26, 2,   0,   0,   2,  1,   3,  2,  0,  1,  2,  0,  1,  0, 1},
-	                   {22, 34, 26, 1, 1, 1, 1, 2, 0, 0, 14}, {9, 1, 0}, 12, 18, 40, 30},
+	                   {22, 34, 26, 1, 1, 1, 1, 2, 0, 0, 14, 8, 0}, {9, 1, 0}, 12, 18, 40, 30, 50, 30},
 	{"plans",          {30, 8,  1,  4,  3,  24,  2,   5,   8,  5,   2,  2,  1,  2,  1,  1,  1,  1, 1},
-	                   {26, 8,  4,  16, 8, 8, 5, 18, 2, 5, 2}, {9, 0, 1}, 18, 14, 40, 20},
+	                   {26, 8,  4,  16, 8, 8, 5, 18, 2, 5, 2, 2, 0}, {9, 0, 1}, 18, 14, 40, 20, 30, 20},
 	{"serial",         {10, 4,  1,  6,  16, 4,   1,   1,   1,  1,   6,  8,  16, 20, 2,  2,  2,  1, 1},
-	                   {50, 18, 8,  3,  2, 2, 2, 6, 1, 2, 2}, {1, 0, 0}, 14, 8, 30, 10},
+	                   {50, 18, 8,  3,  2, 2, 2, 6, 1, 2, 2, 2, 0}, {1, 0, 0}, 14, 8, 30, 10, 30, 20},
 	{"replica",        {18, 6,  1,  12, 18, 6,   1,   1,   4,  2,   5,  4,  0,  0,  0,  0,  0,  0, 0},
-	                   {28, 30, 22, 4,  2, 2, 2, 6, 1, 1, 10}, {0, 1, 0}, 12, 16, 40, 25},
+	                   {28, 30, 22, 4,  2, 2, 2, 6, 1, 1, 10, 8, 0}, {0, 1, 0}, 12, 16, 40, 25, 50, 30},
 	{"fork",           {20, 6,  2,  12, 10, 8,   1,   2,   4,  2,   3,  3,  3,  3,  3,  14, 0,  2, 1},
-	                   {36, 20, 10, 6,  3, 4, 3, 8, 2, 3, 4}, {0, 0, 1}, 12, 12, 45, 15},
+	                   {36, 20, 10, 6,  3, 4, 3, 8, 2, 3, 4, 3, 1}, {0, 0, 1}, 12, 12, 45, 15, 40, 20},
 	{"logging",        {20, 8,  3,  10, 10, 10,  1,   2,   6,  3,   3,  3,  1,  2,  2,  1,  2,  12, 1},
-	                   {30, 18, 14, 8,  4, 5, 3, 10, 2, 3, 3}, {1, 0, 0}, 14, 14, 40, 20},
+	                   {30, 18, 14, 8,  4, 5, 3, 10, 2, 3, 3, 2, 9}, {1, 0, 0}, 14, 14, 40, 20, 30, 20},
 	{"phases",         {34, 22, 12, 8,  4,  6,   1,   1,   3,  2,   2,  2,  0,  1,  1,  0,  1,  1, 2},
-	                   {34, 24, 6,  8,  5, 5, 4, 8, 2, 2, 3}, {1, 0, 0}, 12, 12, 40, 15},
+	                   {34, 24, 6,  8,  5, 5, 4, 8, 2, 2, 3, 3, 1}, {1, 0, 0}, 12, 12, 40, 15, 30, 20},
 	{"neutral",        {30, 14, 8,  20, 18, 0,   0,   0,   0,  0,   3,  3,  0,  0,  0,  0,  0,  0, 1},
-	                   {40, 36, 24, 0,  0, 0, 0, 0, 0, 0, 10}, {1, 0, 0}, 12, 14, 0, 20},
+	                   {40, 36, 24, 0,  0, 0, 0, 0, 0, 0, 10, 0, 0}, {1, 0, 0}, 12, 14, 0, 20, 0, 20},
 	// scenarios that use exactly one optional feature (C19: switching on any *other* feature must not change them)
 	{"plans_only",     {30, 8,  2,  8,  6,  24,  2,   5,   8,  5,   3,  4,  0,  0,  0,  0,  0,  0, 0},
-	                   {26, 12, 6,  14, 8, 8, 5, 16, 2, 5, 3}, {1, 0, 0}, 16, 14, 40, 20},
+	                   {26, 12, 6,  14, 8, 8, 5, 16, 2, 5, 3, 0, 0}, {1, 0, 0}, 16, 14, 40, 20, 0, 20},
 	{"serial_only",    {16, 6,  2,  10, 18, 0,   0,   0,   0,  0,   3,  4,  20, 24, 0,  0,  0,  0, 0},
-	                   {50, 26, 14, 0,  0, 0, 0, 0, 0, 0, 5}, {1, 0, 0}, 14, 10, 30, 15},
+	                   {50, 26, 14, 0,  0, 0, 0, 0, 0, 0, 5, 0, 0}, {1, 0, 0}, 14, 10, 30, 15, 0, 20},
 	{"history_only",   {22, 8,  2,  14, 20, 0,   0,   0,   0,  0,   3,  4,  0,  0,  14, 0,  0,  0, 0},
-	                   {34, 32, 24, 0,  0, 0, 0, 0, 0, 0, 8}, {3, 2, 0}, 14, 14, 40, 20},
+	                   {34, 32, 24, 0,  0, 0, 0, 0, 0, 0, 8, 8, 0}, {3, 2, 0}, 14, 14, 40, 20, 50, 25},
 };
 const int kProfileCount = sizeof(kProfiles) / sizeof(kProfiles[0]);
 
@@ -93,6 +96,7 @@ rc::Gen<Action> genAction(const Profile& p) {
 			a.y = uint8_t(*rng<int>(0, 40));
 			if (a.kind == ACT_PLAN_REMOVE) a.x = uint8_t(*rng<int>(0, 256));
 			if (a.kind == ACT_REQUEST || a.kind == ACT_REQUEST_REL || a.kind == ACT_PLAN_APPEND) a.pay = *genPay(p.payPct);
+			if (a.kind == ACT_REQUEST_FWD) a.y = uint8_t(*rng<int>(0, 4));
 			if (*rng<int>(0, 100) < p.chainPct) a.kind |= ACT_CHAIN;
 			if (*rng<int>(0, 100) < 6) a.kind |= ACT_STICKY;
 		}
@@ -126,8 +130,24 @@ rc::Gen<Case> genCase(const Profile& p) {
 		c.fill = *rc::gen::element<uint8_t>(0x00, 0xFF, 0x01, 0xCD, 0xAA, 0x55, 0x80, 0x7F);
 		c.scenario = uint8_t(*weighted(p.scW, 3));
 		c.flags = uint8_t(*rng<int>(0, 2));
+		if (*rng<int>(0, 100) < p.refPct) c.flags |= 2;
 		c.ctor = *rc::gen::resize(4, rc::gen::container<std::vector<Action>>(genAction(p)));
 		c.ops = *rc::gen::resize(p.maxOps, rc::gen::container<std::vector<Op>>(genOp(p)));
+		// operand echo: an operation (action) names the same state as the one before it
+		uint8_t lastA = 0; bool have = false;
+		for (Op& op : c.ops) {
+			const bool names = op.code == OP_CHANGE || op.code == OP_IMMEDIATE || op.code == OP_REPLAY || op.code == OP_SUCCEED || op.code == OP_FAIL || op.code == OP_PLAN_APPEND;
+			if (names && have && op.a < 0xF0 && *rng<int>(0, 100) < p.echoPct) op.a = lastA;
+			if (names && op.a < 0xF0) { lastA = op.a; have = true; }
+			uint8_t lastX = op.a;
+			for (Action& a : op.acts) {
+				const uint8_t k = a.kind & ACT_KIND_MASK;
+				if (k == ACT_REQUEST || k == ACT_REQUEST_FWD || k == ACT_SUCCEED_ID || k == ACT_FAIL_ID || k == ACT_PLAN_APPEND) {
+					if (*rng<int>(0, 100) < p.echoPct) a.x = lastX;
+					lastX = a.x;
+				}
+			}
+		}
 		return c;
 	});
 }
